@@ -82,6 +82,17 @@ def handle (req : Sexp) : Sexp :=
       let ρ := inducedTyping this vars r
       okS [Sexp.ofBool (wellTypedB ρ r), Sexp.ofBool (ctype ρ r == T.BOOL), Sexp.ofBool (singleValued (collectTyping this vars [] r))]
     | _, _, _ => errS "protocol" "wtunder"
+  | .list [.atom "cli", asProp, wantJson, input] =>
+    -- hpl [-p] [-o json] ARG; `input` is the property text / the file's text, or _ when the file cannot be read
+    match boolOf asProp, boolOf wantJson with
+    | some asProp, some wantJson =>
+      let inp : Option (Option String) := match input with | .str s => some (some s) | .atom "_" => some none | _ => none
+      match inp with
+      | some inp =>
+        let r := cliMain asProp wantJson inp
+        okS [Sexp.ofNat r.exit, match r.json with | some j => encJson j | none => .atom "_"]
+      | none => errS "protocol" "cli input"
+    | _, _ => errS "protocol" "cli"
   | .list [.atom "clash", r] =>
     -- does the definite-clash detector (Spec/Clash; sound for `build` by Props/C05) flag this raw term?
     match decRaw r with
